@@ -909,3 +909,30 @@ pub fn gen_clustering(rng: &mut Rng, sp: &SProblem) -> Value {
     }
     c
 }
+
+/// explicit objectives for a generated problem (valid by the rules E1600-E1607): the default hierarchy with zero to two
+/// objectives that keep per-solution aggregates (work balance, compact tours) and - when jobs carry an order - the soft
+/// tour order, which makes the order a matter of cost instead of a hard rule
+pub fn gen_objectives(rng: &mut Rng, sp: &SProblem) -> Vec<Value> {
+    let mut os: Vec<Value> = vec![];
+    if sp.jobs.iter().any(|j| j.value.is_some()) {
+        os.push(json!({"type": "maximize-value"}));
+    }
+    os.push(json!({"type": "minimize-unassigned"}));
+    if rng.chance(2, 3) {
+        os.push(json!({"type": "minimize-tours"}));
+    }
+    if sp.jobs.iter().any(|j| j.tasks.iter().any(|t| t.order.is_some())) && rng.chance(1, 2) {
+        os.push(json!({"type": "tour-order"}));
+    }
+    let mut extras = vec!["balance-max-load", "balance-activities", "balance-distance", "balance-duration", "compact-tour"];
+    rng.shuffle(&mut extras);
+    for k in extras.into_iter().take(rng.usize(1, 2)) {
+        os.push(match k {
+            "compact-tour" => json!({"type": k, "job_radius": rng.usize(1, 3)}),
+            _ => json!({"type": k}),
+        });
+    }
+    os.push(json!({"type": "minimize-cost"}));
+    os
+}
